@@ -55,6 +55,32 @@ fn vp_native_from_env_matrix() {
         assert_eq!(s.for_url(&u2).cloned(), want_https, "https via all_proxy={:?}", ap);
         cases += 1;
     } } }
+    // all eight variables: {unset, empty, blank, valid http, valid https, socks, garbage} for each lower-case proxy variable, a reduced
+    // domain for the upper-case spellings; NO_PROXY / no_proxy over {unset, empty, *, matching host}
+    let vals7: [Option<&str>; 7] = [None, Some(""), Some("  "), Some("http://p1.test:1"), Some("https://p2.test:2"), Some("socks5://s.test:3"), Some("::garbage::")];
+    let upvals: [Option<&str>; 3] = [None, Some(""), Some("http://upper.test:9")];
+    let npvals: [Option<&str>; 4] = [None, Some(""), Some("*"), Some("h.test")];
+    let pick = |lo: Option<&'static str>, up: Option<&'static str>| -> Option<&'static str> { if lo.is_some() { lo } else { up } };
+    for hp in vals7 { for sp in vals7 { for ap in vals7 { for hpu in upvals { for spu in upvals { for apu in upvals { for np in npvals { for npu in [None, Some("*")] {
+        // keep the product tractable: vary the upper-case spellings only against a reduced lower-case domain
+        if (hpu.is_some() || spu.is_some() || apu.is_some() || npu.is_some()) && !(matches!(hp, None | Some("") | Some("http://p1.test:1")) && matches!(sp, None | Some("")) && matches!(ap, None | Some("") | Some("https://p2.test:2"))) { continue; }
+        clear();
+        for (n, v) in [("http_proxy", hp), ("https_proxy", sp), ("all_proxy", ap), ("no_proxy", np)] { if let Some(v) = v { std::env::set_var(n, v); } }
+        for (n, v) in [("HTTP_PROXY", hpu), ("HTTPS_PROXY", spu), ("ALL_PROXY", apu), ("NO_PROXY", npu)] { if let Some(v) = v { std::env::set_var(n, v); } }
+        let s = ProxySettings::from_env();
+        let all = ok(pick(ap, apu));
+        let want_http = ok(pick(hp, hpu)).or(all.clone());
+        let want_https = ok(pick(sp, spu)).or(all.clone());
+        let nop = pick(np, npu);
+        let disabled = nop.map_or(false, |v| v.trim() == "*");
+        let bypass_h = nop.map_or(false, |v| v.split(',').any(|e| bypass_spec("h.test", &e.trim().trim_start_matches('.').to_lowercase())));
+        for (url, want) in [("http://h.test/", &want_http), ("https://h.test/", &want_https), ("http://other.test/", &want_http)] {
+            let u = Url::parse(url).unwrap();
+            let expect = if disabled || (bypass_h && u.host_str() == Some("h.test")) { None } else { want.clone() };
+            assert_eq!(s.for_url(&u).cloned(), expect, "{} with http_proxy={:?} https_proxy={:?} all_proxy={:?} no_proxy={:?} HTTP_PROXY={:?} HTTPS_PROXY={:?} ALL_PROXY={:?} NO_PROXY={:?}", url, hp, sp, ap, np, hpu, spu, apu, npu);
+            cases += 1;
+        }
+    } } } } } } } }
     // NO_PROXY tokenisation
     let pieces = ["corp.test", " corp.test", ".corp.test", " .corp.test", ". corp.test", "CORP.TEST ", "", " ", "other"];
     for a in pieces { for b in pieces {
